@@ -295,6 +295,34 @@ pub struct LogDensity {
     pub extra_dims: Vec<(String, u64)>,
     /// watchdog: after this many evaluations every call fails with an unrecoverable "BUDGET" error
     pub budget: usize,
+    /// identifies the instance created by `Model::math` (sampler tests)
+    pub instance: usize,
+    pub hooks: Option<Arc<dyn EvalHooks>>,
+    /// signals `on_drop` when the last clone of this instance is dropped
+    pub drop_guard: Option<Arc<DropGuard>>,
+}
+
+/// Callbacks from inside the density (they run on the chain's thread).
+pub trait EvalHooks: Send + Sync {
+    fn before_eval(&self, _instance: usize, _k: usize) {}
+    fn on_expand(&self, _instance: usize, _t: u64) {}
+    fn on_drop(&self, _instance: usize) {}
+}
+
+pub struct DropGuard {
+    pub instance: usize,
+    pub hooks: Arc<dyn EvalHooks>,
+}
+
+impl Drop for DropGuard {
+    fn drop(&mut self) {
+        self.hooks.on_drop(self.instance);
+    }
+}
+
+thread_local! {
+    /// instance id of the density that evaluated last on this thread (binds a chain's storage to its density)
+    pub static CURRENT_INSTANCE: std::cell::Cell<usize> = const { std::cell::Cell::new(usize::MAX) };
 }
 
 pub const BUDGET_MSG: &str = "NVH-EVALUATION-BUDGET-EXHAUSTED";
@@ -307,7 +335,16 @@ impl LogDensity {
             faults: Arc::new(BTreeMap::new()),
             extra_dims: vec![],
             budget: usize::MAX,
+            instance: 0,
+            hooks: None,
+            drop_guard: None,
         }
+    }
+    pub fn with_hooks(mut self, instance: usize, hooks: Arc<dyn EvalHooks>) -> Self {
+        self.instance = instance;
+        self.drop_guard = Some(Arc::new(DropGuard { instance, hooks: hooks.clone() }));
+        self.hooks = Some(hooks);
+        self
     }
     pub fn with_budget(mut self, budget: usize) -> Self {
         self.budget = budget;
@@ -359,6 +396,10 @@ impl CpuLogpFunc for LogDensity {
         if k >= self.budget {
             return Err(DensErr { recoverable: false, msg: BUDGET_MSG.into() });
         }
+        if let Some(h) = &self.hooks {
+            CURRENT_INSTANCE.with(|c| c.set(self.instance));
+            h.before_eval(self.instance, k);
+        }
         let fault = self.faults.get(&k).copied();
         let mut res = self.spec.eval(x, g);
         if let Some(f) = fault {
@@ -402,7 +443,15 @@ impl CpuLogpFunc for LogDensity {
         _rng: &mut R,
         array: &[f64],
     ) -> Result<Vec<f64>, CpuMathError> {
-        self.log.lock().unwrap().expand_calls += 1;
+        let t = {
+            let mut l = self.log.lock().unwrap();
+            l.expand_calls += 1;
+            l.expand_calls - 1
+        };
+        if let Some(h) = &self.hooks {
+            CURRENT_INSTANCE.with(|c| c.set(self.instance));
+            h.on_expand(self.instance, t);
+        }
         Ok(array.to_vec())
     }
 
